@@ -89,14 +89,16 @@ func (g *Group) ShareOfKind(i int, k string, rng *rand.Rand) crypto.Signature {
 			return g.Shares[(i+1+rng.Intn(g.N-1))%g.N] // another signer's valid share
 		}
 		p, _ := ref.G1Decompress(g.Shares[i])
-		return p.Add(ref.G1Gen.Mul(big.NewInt(int64(1 + rng.Intn(1000))))).Compress() // s + delta in G1
+		// s + delta in G1; delta of 62 random bits: small deltas at two signers can cancel in the interpolation (L_a.d_a + L_b.d_b = 0,
+		// e.g. d_b = 2 d_a for n = 3), which makes the reconstruction the genuine group signature although both shares are wrong
+		return p.Add(ref.G1Gen.Mul(big.NewInt(1 + rng.Int63n(1<<62)))).Compress()
 	case "g":
 		p, _ := ref.G1Decompress(g.Shares[i])
 		// a curve point outside G1 whose G1 component is not the share either: s + delta + T.
 		// (A pure s + T is a different matter: E1(Fp)[h1] has exponent x-1, which divides r-1, so a Lagrange
 		// coefficient equal to -1 = r-1 annihilates ANY cofactor-torsion component and the reconstruction is the
 		// genuine group signature; that case is kind "g3", judged only by the validity of the result.)
-		return p.Add(ref.G1Gen.Mul(big.NewInt(int64(1 + rng.Intn(1000))))).Add(ref.TorsionE1(rng)).Compress()
+		return p.Add(ref.G1Gen.Mul(big.NewInt(1 + rng.Int63n(1<<62)))).Add(ref.TorsionE1(rng)).Compress()
 	case "g3": // s + T, T of order 3: may or may not survive the interpolation, judged only by the validity of the result
 		p, _ := ref.G1Decompress(g.Shares[i])
 		return p.Add(ref.Order3E1(rng)).Compress()
